@@ -24,7 +24,27 @@ MALFORMED = {
     "no_star": [b"8D4840D6202CC371C32CE0576098;\n"],
     "misplaced_markers": [b";*\n", b"abc;def*gh\n", b"*8D4840D6202CC371C32CE0576098;*8D40\n", b"**;;\n", b";\r\n", b"*;*;\n", b"* ;\n"],
     "punctuation_soup": None,  # generated per scenario: random lines over the alphabet of the protocol
+    "near_miss_framing": None,  # filled in below: a decodable frame of a ghost aircraft in almost-right framing
 }
+# A perfectly decodable identification squitter of an aircraft no feed ever announces: if any of
+# these lines is taken for a frame the ghost shows up (radar) or its hex is echoed (1090).
+GHOST = 0x4CA7B5
+GHOST_HEX = enc.long_frame(17, 5, GHOST, enc.me_ident(4, 0, "GHOST")).hex().upper().encode()
+MALFORMED["near_miss_framing"] = [
+    b"*" + GHOST_HEX + b"\n",            # no ';'
+    b"*" + GHOST_HEX + b";;\n",          # doubled ';'
+    GHOST_HEX + b";\n",                  # no '*'
+    b"**" + GHOST_HEX + b";\n",
+    b"*" + GHOST_HEX + b"; \n",          # blank after ';'
+    b" *" + GHOST_HEX + b";\n",          # blank before '*'
+    b"*" + GHOST_HEX + b";x\n",
+    b"*" + GHOST_HEX + b"\r\n",
+    b"*;" + GHOST_HEX + b";\n",
+    b"*" + GHOST_HEX + b"*;\n",
+    b"*" + GHOST_HEX + b":\n",
+    b"@" + GHOST_HEX + b";\n",           # another Beast-ASCII line type
+    b"*" + GHOST_HEX[:14] + b" " + GHOST_HEX[14:] + b";\n",
+]
 SOUP_ALPHABET = b"*;*;8DAF09 \r"
 
 
@@ -48,6 +68,7 @@ def build_feed(rng, n_lines, malformed, limit_parsing=False):
     bad = MALFORMED[malformed]
     if bad is None:
         bad = soup(rng)
+    n_bad = 0
     for k in range(n_lines):
         roll = rng.random()
         a = rng.choice(addrs)
@@ -69,9 +90,15 @@ def build_feed(rng, n_lines, malformed, limit_parsing=False):
             enc.setbits(m, 1, 5, rng.choice([16, 20, 21, 24]))
             lines.append(("other", enc.line(bytes(m)), None, None))
         if bad and rng.random() < 0.25:
-            lines.append(("bad", rng.choice(bad), None, None))
+            lines.append(("bad", bad[n_bad % len(bad)] if len(bad) > 4 else rng.choice(bad), None, None))
+            n_bad += 1
     if bad and not any(k == "bad" for k, *_ in lines):
         lines.insert(len(lines) // 2, ("bad", bad[0], None, None))
+        n_bad += 1
+    # kinds with many variants: every variant is sent at least once
+    while bad and len(bad) > 4 and n_bad < len(bad):
+        lines.append(("bad", bad[n_bad], None, None))
+        n_bad += 1
     # every malformed line is followed by sentinels: end with good lines
     for _ in range(3):
         counter += 1
@@ -179,6 +206,8 @@ def check_1090(col, binpath, rng, tag, seg_kind, delay_kind, malformed, scratch)
             m = session.PANIC_RE.search(err)
             col.add("C16", f"C16|1090_terminated|{cls}", f"1090 exited with status {s.p.returncode} while the server was connected; stderr: {err[-400:]}", dict(inp, panic=m.group(1) if m else None))
             return
+        if GHOST_HEX.decode().lower() in out.split("\n"):
+            col.add("C16", f"C16|1090_malformed_line_taken_for_frame|{cls}", "a line that is not '*<hex>;' (missing, doubled or misplaced markers around decodable hex) was echoed as a frame", inp)
         if got != want:
             # classify
             missing = [w for w in want if w not in got]
@@ -395,6 +424,6 @@ def main(a, lcol, col, run_all, scratch, START):
     col.sample({"scenario": "radar per_line/none/none", "what": "20-70 unique '*<hex>;' lines for 1-5 aircraft; per-aircraft Msgs column and last callsign compared after the feed; then server close -> exit status / terminal restored"})
     col.sample({"scenario": "1090 cut_in_hex/gt_timeout/none", "what": "every line cut in the middle of its hex digits with 70-150 ms pauses; stdout echo sequence must equal the sent sequence"})
     return vlib.finish(col, "C16", a.tier, a.seed, "fault_enumeration",
-        "each scenario = one fresh client process against a scripted TCP feed of unique '*<hex>;' lines: 9 segmentation kinds x 4 delay classes (below / around / above the 50 ms read timeout) x 16 malformed-line kinds (each followed by sentinel lines) x 5 disconnect modes (close / close mid-line / close+re-accept with --retry-tcp / drop mid-line + re-accept / server alive but not accepting for 13 s); 1090: stdout echo sequence == sent sequence; radar: per-aircraft Msgs column == lines sent, callsign == last identification line, tab title count, exit status and terminal state after a disconnect, counts continue after a reconnect; distinct_nontrivial = distinct (client, segmentation, delay, malformed, disconnect) cells run",
+        "each scenario = one fresh client process against a scripted TCP feed of unique '*<hex>;' lines: 9 segmentation kinds x 4 delay classes (below / around / above the 50 ms read timeout) x 17 malformed-line kinds (incl. near-miss framing of a decodable ghost frame: missing, doubled, misplaced markers) (each followed by sentinel lines) x 5 disconnect modes (close / close mid-line / close+re-accept with --retry-tcp / drop mid-line + re-accept / server alive but not accepting for 13 s); 1090: stdout echo sequence == sent sequence; radar: per-aircraft Msgs column == lines sent, callsign == last identification line, tab title count, exit status and terminal state after a disconnect, counts continue after a reconnect; distinct_nontrivial = distinct (client, segmentation, delay, malformed, disconnect) cells run",
         ["delays are relative to a 50 ms timeout on a loaded machine: the number of mid-line pauses > 50 ms is what the plan requested, the property must hold for every schedule", "CRLF-terminated lines are not counted as well-formed lines"],
         a.verif, START, n, len(col.classes), extra={"fault_kinds": {"segmentations": SEGMENTATIONS, "delays": list(DELAYS), "malformed": malformed_kinds, "disconnect": ["close", "midline", "retry", "retry_midline", "retry_backlog"]}}, min_evaluations=10)
